@@ -1,11 +1,96 @@
-/- Spec-driver operations of cluster E (see Driver/Main.lean). Imports Spec/* only — never Gen or Model. -/
-import PdbVerif.Driver.Json
+/- Spec-driver operations of cluster E (C07, C11). Imports Spec/* only — never Gen or Model. -/
+import PdbVerif.Driver.ECommon
+import PdbVerif.Spec.C07
+import PdbVerif.Spec.C11
 
 namespace Driver.SpecE
-open Lean Driver
+open Lean Driver Driver.ECommon Py Spec.Rmsd
+
+def idPairJ (p : IdPair) : Json := pairJ p.2.1 p.2.2
+def pairsJ (l : List IdPair) : Json := .arr (l.map idPairJ).toArray
+
+/-- the Spec's answer for one decoy/reference pair -/
+def rmsdSpec (dec ref : List Atom) (cutoff : Rat) : Json :=
+  Json.mkObj [
+    ("defined", .bool true),
+    ("consistent", .bool (consistent dec ref)),
+    ("same_atoms", .bool (sameAtoms dec ref)),
+    ("missing_any", .bool (missingSomewhere none dec ref)),
+    ("missing_backbone", .bool (missingSomewhere (some backboneNames) dec ref)),
+    ("interface", pairsJ (interfacePairs dec ref cutoff)),
+    ("lig_fit", pairsJ (ligandFitPairs dec ref)),
+    ("lig_eval", pairsJ (ligandEvalPairs dec ref))]
+
+structure Side where
+  dec : List Atom
+  ref : List Atom
+
+def jSide (j : Json) (k : String) : Except String (Option Side) := do
+  let s ← jVal j k
+  match ← jRowsOpt s "dec_rows", ← jRowsOpt s "ref_rows" with
+  | some d, some r => pure (some ⟨d, r⟩)
+  | _, _ => pure none
+
+def isPermOf (a b : List IdPair) : Bool := a.isPerm b
+
+open Spec.Inv in
+/-- relation between the Spec's objects of the base pair and of its transformed copy -/
+def metaSpec (kind : String) (j : Json) (b v : Side) (cutoff : Rat) : Except String Json := do
+  let iB := interfacePairs b.dec b.ref cutoff
+  let iV := interfacePairs v.dec v.ref cutoff
+  let fB := ligandFitPairs b.dec b.ref
+  let fV := ligandFitPairs v.dec v.ref
+  let eB := ligandEvalPairs b.dec b.ref
+  let eV := ligandEvalPairs v.dec v.ref
+  let cons := consistent b.dec b.ref
+  let fnatSame := decide (Spec.C08.fnat 5 v.ref v.dec = Spec.C08.fnat 5 b.ref b.dec)
+  let clashSame := decide (Spec.C08.clashes v.dec = Spec.C08.clashes b.dec)
+  let mk (premise irmsd fit eval : Bool) (fnat clashes : Option Bool) : Json :=
+    Json.mkObj [("premise", .bool premise), ("consistent", .bool cons), ("irmsd", .bool irmsd), ("lrmsd_fit", .bool fit),
+      ("lrmsd_eval", .bool eval),
+      ("fnat", match fnat with | some x => .bool x | none => .null),
+      ("clashes", match clashes with | some x => .bool x | none => .null)]
+  match kind with
+  | "rigid_exact" =>
+    let (R, t) ← jMotion (← jVal j "motion")
+    let g : Motion Rat := ⟨R, t⟩
+    let both := (← jStr j "which") == "both"
+    let premise := decide (v.dec = move g b.dec) && decide (v.ref = if both then move g b.ref else b.ref)
+    let f := if both then moveBoth g else moveDecoy g
+    pure (mk premise (decide (iV = iB.map f)) (decide (fV = fB.map f)) (decide (eV = eB.map f)) (some fnatSame) (some clashSame))
+  | "rigid" =>
+    -- coordinates are rounded to the text precision: only the identities of the pairs can be compared exactly
+    let ks (l : List IdPair) := l.map (·.1)
+    pure (mk true (decide (ks iV = ks iB)) (decide (ks fV = ks fB)) (decide (ks eV = ks eB)) none none)
+  | "columns" =>
+    let premise := sameButIgnoredAll b.dec v.dec && sameButIgnoredAll b.ref v.ref
+    pure (mk premise (decide (iV = iB)) (decide (fV = fB)) (decide (eV = eB)) (some fnatSame) (some clashSame))
+  | "renumber" =>
+    let δ ← jInt j "delta"
+    let premise := decide (v.dec = renumber δ b.dec) && decide (v.ref = renumber δ b.ref)
+    pure (mk premise (decide (iV = iB.map (shiftPair δ))) (decide (fV = fB.map (shiftPair δ)))
+      (decide (eV = eB.map (shiftPair δ))) (some fnatSame) (some clashSame))
+  | "hydrogens" =>
+    let premise := decide (heavy v.dec = heavy b.dec) && decide (heavy v.ref = heavy b.ref)
+    pure (mk premise true true true (some fnatSame) (some clashSame))
+  | "permute" =>
+    let premise := b.dec.isPerm v.dec && b.ref.isPerm v.ref
+    pure (mk premise (isPermOf iV iB) (isPermOf fV fB) (isPermOf eV eB) (some fnatSame) (some clashSame))
+  | _ => throw s!"unknown meta kind {kind}"
 
 def op (name : String) (j : Json) : Except String (Option Json) := do
   match name with
+  | "rmsd" =>
+    let cutoff ← jRat j "cutoff"
+    match ← jRowsOpt j "dec_rows", ← jRowsOpt j "ref_rows" with
+    | some dec, some ref => pure (some (rmsdSpec dec ref cutoff))
+    | _, _ => pure (some (Json.mkObj [("defined", .bool false)]))
+  | "meta" =>
+    let cutoff ← jRat j "cutoff"
+    let kind ← jStr j "kind"
+    match ← jSide j "base", ← jSide j "var" with
+    | some b, some v => do let r ← metaSpec kind j b v cutoff; pure (some r)
+    | _, _ => pure (some (Json.mkObj [("defined", .bool false)]))
   | _ => pure none
 
 end Driver.SpecE
